@@ -17,7 +17,7 @@ use quil_rs::instruction::{
     MeasureCalibrationDefinition, MeasureCalibrationIdentifier, Measurement, MemoryReference, Pragma, Qubit,
     QubitPlaceholder,
 };
-use quil_rs::program::Calibrations;
+use quil_rs::program::{CalibrationSet, CalibrationSource, Calibrations};
 use quil_rs::Program;
 use std::str::FromStr;
 
@@ -30,7 +30,7 @@ macro_rules! biased {
 }
 
 /// Parameter alphabet (texts; parsed by the real expression parser).
-const PARAMS: [&str; 14] = [
+const PARAMS: [&str; 15] = [
     "1.0",
     "pi/2",
     "1.5707963267948966",
@@ -45,23 +45,37 @@ const PARAMS: [&str; 14] = [
     "1.0+1.0",
     "-1.0",
     "0.0",
+    "2*pi/4",
 ];
 
+/// Parameter classes are computed INDEPENDENTLY of `Expression::eq`: two expressions are in the same class iff
+/// their `Debug` renderings (a structural dump of the AST, f64 leaves printed exactly) coincide.  `sanity`
+/// cross-checks, on every run, that `Expression::eq` agrees with this on all pairs of the alphabet and of its
+/// simplified forms (so a change of `Expression::eq` itself is reported, not absorbed).
 struct ParamTable {
     exprs: Vec<Expression>,
+    keys: Vec<String>,
+    simp_keys: Vec<String>,
     simp: Vec<Expression>,
+}
+
+fn key_of(e: &Expression) -> String {
+    format!("{e:?}")
 }
 
 impl ParamTable {
     fn new() -> Self {
         let exprs: Vec<Expression> =
             PARAMS.iter().map(|t| Expression::from_str(t).unwrap_or_else(|e| panic!("param {t}: {e:?}"))).collect();
-        let simp = exprs.iter().map(|e| e.clone().into_simplified()).collect();
-        ParamTable { exprs, simp }
+        let simp: Vec<Expression> = exprs.iter().map(|e| e.clone().into_simplified()).collect();
+        let keys = exprs.iter().map(key_of).collect();
+        let simp_keys = simp.iter().map(key_of).collect();
+        ParamTable { exprs, keys, simp_keys, simp }
     }
-    /// class of `e` under `Expression::eq` among the alphabet (first equal entry), 1000 if foreign
+    /// class of `e` = first alphabet entry with the same structural key, 1000 if foreign
     fn raw_class(&self, e: &Expression) -> u64 {
-        self.exprs.iter().position(|x| x == e).map(|i| i as u64).unwrap_or(1000)
+        let k = key_of(e);
+        self.keys.iter().position(|x| *x == k).map(|i| i as u64).unwrap_or(1000)
     }
     /// `v` if `e` simplifies to a variable, else the class of the simplified form (computed afresh from `e`)
     fn simp_class(&self, e: &Expression) -> Sexp {
@@ -69,10 +83,25 @@ impl ParamTable {
         if let Expression::Variable(_) = s {
             return atom("v");
         }
-        nat(self.simp.iter().position(|x| *x == s).map(|i| i as u64).unwrap_or(1000))
+        let k = key_of(&s);
+        nat(self.simp_keys.iter().position(|x| *x == k).map(|i| i as u64).unwrap_or(1000))
     }
     fn enc(&self, e: &Expression) -> Sexp {
         tagged("p", vec![nat(self.raw_class(e)), self.simp_class(e)])
+    }
+    /// pairs on which `Expression::eq` and the structural key disagree (expected: none)
+    fn sanity(&self) -> Vec<Sexp> {
+        let mut bad = Vec::new();
+        for (what, es, ks) in [("raw", &self.exprs, &self.keys), ("simp", &self.simp, &self.simp_keys)] {
+            for i in 0..es.len() {
+                for j in 0..es.len() {
+                    if (es[i] == es[j]) != (ks[i] == ks[j]) {
+                        bad.push(list(vec![atom(what), nat(i as u64), nat(j as u64)]));
+                    }
+                }
+            }
+        }
+        bad
     }
 }
 
@@ -119,7 +148,11 @@ struct MeasSpec {
 enum Op<T> {
     Ins(T),
     Rem(T),
+    /// `CalibrationSet::extend(iter)` (route Program: `Program::add_instructions`)
     Ext(Vec<T>),
+    /// `Calibrations::extend(other)` with `other` = `CalibrationSet::from(vec)` (route Program: `+` / `+=` of a
+    /// second program built by `Program::from_instructions`)
+    ExtFrom(Vec<T>),
 }
 
 struct World {
@@ -267,6 +300,7 @@ fn enc_ops<T>(ops: &[Op<T>], enc: impl Fn(&T) -> Sexp) -> Sexp {
                 Op::Ins(c) => tagged("ins", vec![enc(c)]),
                 Op::Rem(c) => tagged("rem", vec![enc(c)]),
                 Op::Ext(cs) => tagged("ext", cs.iter().map(&enc).collect()),
+                Op::ExtFrom(cs) => tagged("extfrom", cs.iter().map(&enc).collect()),
             })
             .collect(),
     )
@@ -282,84 +316,221 @@ fn answer_index<T>(found: Option<&T>, mut all: impl Iterator<Item = impl std::op
     }
 }
 
+#[derive(Clone, Copy, PartialEq)]
+enum Route {
+    /// `Calibrations::{insert_*, extend}`, `CalibrationSet::{remove, extend, from}`
+    Api,
+    /// `Program::{add_instruction, add_instructions, from_instructions}`, `+`, `+=`
+    Program,
+}
+
+fn fmt_err<E: std::fmt::Display + std::fmt::Debug>(e: &E) -> Sexp {
+    // formatting is part of the observation: a panic in Display/Debug is a crash of the case
+    let _ = format!("{e} {e:#} {e:?}");
+    atom("err")
+}
+
+fn pragma_body(instructions: &[Instruction]) -> Sexp {
+    match instructions {
+        [Instruction::Pragma(p)] if p.name.starts_with('B') => nat(p.name[1..].parse().unwrap_or(999_999)),
+        _ => atom("odd"),
+    }
+}
+
+/// `Calibrations::expand` and `expand_with_detail` on one instruction: (body, body, source names the winner)
+fn expand_both(cals: &Calibrations, instruction: &Instruction, winner: Option<CalibrationSource>) -> Sexp {
+    let plain = match cals.expand(instruction, &[]) {
+        Ok(None) => atom("none"),
+        Ok(Some(is)) => pragma_body(&is),
+        Err(e) => fmt_err(&e),
+    };
+    let (detail, source_ok) = match cals.expand_with_detail(instruction, &[]) {
+        Ok(None) => (atom("none"), winner.is_none()),
+        Ok(Some(out)) => (pragma_body(&out.new_instructions), Some(out.detail.calibration_used().clone()) == winner),
+        Err(e) => (fmt_err(&e), false),
+    };
+    tagged("e", vec![plain, detail, boolean(source_ok)])
+}
+
 fn gate_case(ctx: &mut Ctx, w: &World, ops: &[Op<CalSpec>], queries: &[GateSpec]) {
+    gate_case_route(ctx, w, ops, queries, Route::Api)
+}
+
+fn gate_case_route(ctx: &mut Ctx, w: &World, ops: &[Op<CalSpec>], queries: &[GateSpec], route: Route) {
     let input = tagged(
-        "gate",
+        if route == Route::Api { "gate" } else { "gatep" },
         vec![
             enc_ops(ops, |c| w.enc_cal(&w.cal(c))),
             tagged("queries", queries.iter().map(|g| w.enc_gate(&w.gate(g))).collect()),
         ],
     );
     ctx.case(input, || {
+        let mut program = Program::new();
         let mut cals = Calibrations::default();
         let mut steps = Vec::new();
-        for op in ops {
-            let ret = match op {
-                Op::Ins(c) => match cals.insert_calibration(w.cal(c)) {
+        for (k, op) in ops.iter().enumerate() {
+            let ret = match (route, op) {
+                (Route::Api, Op::Ins(c)) => match cals.insert_calibration(w.cal(c)) {
                     None => atom("none"),
                     Some(old) => nat(World::body_of(&old.instructions)),
                 },
-                Op::Rem(c) => {
+                (Route::Program, Op::Ins(c)) => {
+                    // `add_instruction` does not return the replaced definition: read it first through `get`
                     let d = w.cal(c);
-                    boolean(cals.calibrations.remove(&d.signature()))
+                    let old = program.calibrations.calibrations.get(&d.signature()).map(|o| World::body_of(&o.instructions));
+                    program.add_instruction(Instruction::CalibrationDefinition(d));
+                    old.map(nat).unwrap_or(atom("none"))
                 }
-                Op::Ext(cs) => {
+                (_, Op::Rem(c)) => {
+                    let d = w.cal(c);
+                    let set = if route == Route::Api { &mut cals.calibrations } else { &mut program.calibrations.calibrations };
+                    boolean(set.remove(&d.signature()))
+                }
+                (Route::Api, Op::Ext(cs)) => {
                     cals.calibrations.extend(cs.iter().map(|c| w.cal(c)));
                     atom("none")
                 }
+                (Route::Program, Op::Ext(cs)) => {
+                    program.add_instructions(cs.iter().map(|c| Instruction::CalibrationDefinition(w.cal(c))));
+                    atom("none")
+                }
+                (Route::Api, Op::ExtFrom(cs)) => {
+                    let other = Calibrations {
+                        calibrations: CalibrationSet::from(cs.iter().map(|c| w.cal(c)).collect::<Vec<_>>()),
+                        measure_calibrations: Default::default(),
+                    };
+                    cals.extend(other);
+                    atom("none")
+                }
+                (Route::Program, Op::ExtFrom(cs)) => {
+                    let other = Program::from_instructions(cs.iter().map(|c| Instruction::CalibrationDefinition(w.cal(c))).collect());
+                    if k % 2 == 0 {
+                        program += other;
+                    } else {
+                        program = program.clone() + other;
+                    }
+                    atom("none")
+                }
             };
-            steps.push(tagged("step", vec![ret, list(cals.iter_calibrations().map(|c| w.enc_cal(c)).collect())]));
+            let cur = if route == Route::Api { &cals } else { &program.calibrations };
+            steps.push(tagged("step", vec![ret, list(cur.iter_calibrations().map(|c| w.enc_cal(c)).collect())]));
         }
-        let answers = queries
-            .iter()
-            .map(|g| {
-                let gate = w.gate(g);
-                answer_index(cals.get_match_for_gate(&gate), cals.iter_calibrations())
-            })
-            .collect();
-        tagged("out", vec![tagged("steps", steps), tagged("ans", answers)])
+        let cals = if route == Route::Api { &cals } else { &program.calibrations };
+        let mut answers = Vec::new();
+        let mut expansions = Vec::new();
+        for g in queries {
+            let gate = w.gate(g);
+            let found = cals.get_match_for_gate(&gate);
+            answers.push(answer_index(found, cals.iter_calibrations()));
+            let winner = found.map(|c| CalibrationSource::Calibration(c.identifier.clone()));
+            expansions.push(expand_both(cals, &Instruction::Gate(gate), winner));
+        }
+        // `CalibrationSet::get` by the signature of every definition mentioned in the history
+        let mut gets = Vec::new();
+        for op in ops {
+            let cs: Vec<&CalSpec> = match op {
+                Op::Ins(c) | Op::Rem(c) => vec![c],
+                Op::Ext(cs) | Op::ExtFrom(cs) => cs.iter().take(4).collect(),
+            };
+            for c in cs {
+                let d = w.cal(c);
+                gets.push(match cals.calibrations.get(&d.signature()) {
+                    None => atom("none"),
+                    Some(x) => nat(World::body_of(&x.instructions)),
+                });
+            }
+        }
+        tagged("out", vec![tagged("steps", steps), tagged("ans", answers), tagged("exp", expansions), tagged("gets", gets)])
     });
 }
 
 fn meas_case(ctx: &mut Ctx, w: &World, ops: &[Op<MCalSpec>], queries: &[MeasSpec]) {
+    meas_case_route(ctx, w, ops, queries, Route::Api)
+}
+
+fn meas_case_route(ctx: &mut Ctx, w: &World, ops: &[Op<MCalSpec>], queries: &[MeasSpec], route: Route) {
     let input = tagged(
-        "meas",
+        if route == Route::Api { "meas" } else { "measp" },
         vec![
             enc_ops(ops, |c| w.enc_mcal(&w.mcal(c))),
             tagged("queries", queries.iter().map(|m| w.enc_meas(&w.meas(m))).collect()),
         ],
     );
     ctx.case(input, || {
+        let mut program = Program::new();
         let mut cals = Calibrations::default();
         let mut steps = Vec::new();
-        for op in ops {
-            let ret = match op {
-                Op::Ins(c) => match cals.insert_measurement_calibration(w.mcal(c)) {
+        for (k, op) in ops.iter().enumerate() {
+            let ret = match (route, op) {
+                (Route::Api, Op::Ins(c)) => match cals.insert_measurement_calibration(w.mcal(c)) {
                     None => atom("none"),
                     Some(old) => nat(World::body_of(&old.instructions)),
                 },
-                Op::Rem(c) => {
+                (Route::Program, Op::Ins(c)) => {
                     let d = w.mcal(c);
-                    boolean(cals.measure_calibrations.remove(&d.signature()))
+                    let old = program.calibrations.measure_calibrations.get(&d.signature()).map(|o| World::body_of(&o.instructions));
+                    program.add_instruction(Instruction::MeasureCalibrationDefinition(d));
+                    old.map(nat).unwrap_or(atom("none"))
                 }
-                Op::Ext(cs) => {
+                (_, Op::Rem(c)) => {
+                    let d = w.mcal(c);
+                    let set = if route == Route::Api { &mut cals.measure_calibrations } else { &mut program.calibrations.measure_calibrations };
+                    boolean(set.remove(&d.signature()))
+                }
+                (Route::Api, Op::Ext(cs)) => {
                     cals.measure_calibrations.extend(cs.iter().map(|c| w.mcal(c)));
                     atom("none")
                 }
+                (Route::Program, Op::Ext(cs)) => {
+                    program.add_instructions(cs.iter().map(|c| Instruction::MeasureCalibrationDefinition(w.mcal(c))));
+                    atom("none")
+                }
+                (Route::Api, Op::ExtFrom(cs)) => {
+                    let other = Calibrations {
+                        calibrations: Default::default(),
+                        measure_calibrations: CalibrationSet::from(cs.iter().map(|c| w.mcal(c)).collect::<Vec<_>>()),
+                    };
+                    cals.extend(other);
+                    atom("none")
+                }
+                (Route::Program, Op::ExtFrom(cs)) => {
+                    let other = Program::from_instructions(cs.iter().map(|c| Instruction::MeasureCalibrationDefinition(w.mcal(c))).collect());
+                    if k % 2 == 0 {
+                        program += other;
+                    } else {
+                        program = program.clone() + other;
+                    }
+                    atom("none")
+                }
             };
-            steps.push(tagged(
-                "step",
-                vec![ret, list(cals.iter_measure_calibrations().map(|c| w.enc_mcal(c)).collect())],
-            ));
+            let cur = if route == Route::Api { &cals } else { &program.calibrations };
+            steps.push(tagged("step", vec![ret, list(cur.iter_measure_calibrations().map(|c| w.enc_mcal(c)).collect())]));
         }
-        let answers = queries
-            .iter()
-            .map(|m| {
-                let meas = w.meas(m);
-                answer_index(cals.get_match_for_measurement(&meas), cals.iter_measure_calibrations())
-            })
-            .collect();
-        tagged("out", vec![tagged("steps", steps), tagged("ans", answers)])
+        let cals = if route == Route::Api { &cals } else { &program.calibrations };
+        let mut answers = Vec::new();
+        let mut expansions = Vec::new();
+        for m in queries {
+            let meas = w.meas(m);
+            let found = cals.get_match_for_measurement(&meas);
+            answers.push(answer_index(found, cals.iter_measure_calibrations()));
+            let winner = found.map(|c| CalibrationSource::MeasureCalibration(c.identifier.clone()));
+            expansions.push(expand_both(cals, &Instruction::Measurement(meas), winner));
+        }
+        let mut gets = Vec::new();
+        for op in ops {
+            let cs: Vec<&MCalSpec> = match op {
+                Op::Ins(c) | Op::Rem(c) => vec![c],
+                Op::Ext(cs) | Op::ExtFrom(cs) => cs.iter().take(4).collect(),
+            };
+            for c in cs {
+                let d = w.mcal(c);
+                gets.push(match cals.measure_calibrations.get(&d.signature()) {
+                    None => atom("none"),
+                    Some(x) => nat(World::body_of(&x.instructions)),
+                });
+            }
+        }
+        tagged("out", vec![tagged("steps", steps), tagged("ans", answers), tagged("exp", expansions), tagged("gets", gets)])
     });
 }
 
@@ -443,12 +614,23 @@ fn prog_meas_case(ctx: &mut Ctx, w: &World, cals: &[MCalSpec], m: &MeasSpec) {
 fn prog_outcome(text: &str, is_query: impl Fn(&Instruction) -> bool) -> Sexp {
     let program = match Program::from_str(text) {
         Ok(p) => p,
-        Err(_) => return tagged("parseerr", vec![st(text)]),
+        Err(e) => {
+            let _ = format!("{e} {e:?}");
+            return tagged("parseerr", vec![st(text)]);
+        }
     };
     let expanded = match program.expand_calibrations() {
         Ok(p) => p,
-        Err(_) => return tagged("expanderr", vec![]),
+        Err(e) => {
+            let _ = format!("{e} {e:?}");
+            return tagged("expanderr", vec![]);
+        }
     };
+    // sibling entry point: the source-map variant must produce the same program
+    match program.expand_calibrations_with_source_map() {
+        Ok((p2, _)) if p2 == expanded => {}
+        _ => return tagged("routes-differ", vec![st(text)]),
+    }
     let body: Vec<&Instruction> = expanded.body_instructions().collect();
     match body.as_slice() {
         [Instruction::Pragma(p)] if p.name.starts_with('B') => {
@@ -504,6 +686,10 @@ fn run(ctx: &mut Ctx) {
     let w = World { table: ParamTable::new(), placeholders: vec![QubitPlaceholder::default(), QubitPlaceholder::default()] };
     let quick = ctx.quick();
     let q01v = [Q::F(0), Q::F(1), Q::V("q")];
+
+    // ---- 0. the parameter classes used by every other case are independent of `Expression::eq`; this case
+    // reports every pair of the alphabet on which `Expression::eq` disagrees with the structural key ----------
+    ctx.case(tagged("sanity", vec![atom("expression-eq-vs-structural-key")]), || tagged("bad", w.table.sanity()));
 
     // ---- 1. corpus: the precedence snapshots of the test-suite and hand-written witnesses -------------
     {
@@ -585,7 +771,15 @@ fn run(ctx: &mut Ctx) {
         queries.push(gate("B", &[], &[], &[Q::F(0)]));
         queries.push(gate("A", &[], &[], &[Q::F(0), Q::F(1)]));
         queries.push(gate("A", &[], &[0], &[Q::F(0)]));
-        sequences(&alphabet, if quick { 3 } else { 4 }, &mut |cs| gate_case(ctx, &w, &number_bodies(cs), &queries));
+        sequences(&alphabet, if quick { 3 } else { 4 }, &mut |cs| {
+            gate_case(ctx, &w, &number_bodies(cs), &queries);
+            // the same history through Program::add_instruction; the last definition arrives by `+` / `+=`
+            let mut ops = number_bodies(cs);
+            if let Some(Op::Ins(last)) = ops.pop() {
+                ops.push(Op::ExtFrom(vec![last]));
+            }
+            gate_case_route(ctx, &w, &ops, &queries, Route::Program);
+        });
     }
     // 2b. two-qubit patterns {0,1,q}^2: fixed-count precedence and ties
     {
@@ -640,12 +834,54 @@ fn run(ctx: &mut Ctx) {
         }
         // keep the quick tier small: names only vary in the thorough tier
         let alpha: Vec<MCalSpec> = if quick { alphabet.iter().filter(|c| c.name.is_none()).cloned().collect() } else { alphabet };
-        sequences(&alpha, if quick { 3 } else { 4 }, &mut |cs| meas_case(ctx, &w, &number_mbodies(cs), &queries));
+        sequences(&alpha, if quick { 3 } else { 4 }, &mut |cs| {
+            meas_case(ctx, &w, &number_mbodies(cs), &queries);
+            if cs.len() <= 3 {
+                let mut ops = number_mbodies(cs);
+                if let Some(Op::Ins(last)) = ops.pop() {
+                    ops.push(Op::ExtFrom(vec![last]));
+                }
+                meas_case_route(ctx, &w, &ops, &queries, Route::Program);
+            }
+        });
+    }
+
+    // 2e. near-identical identifiers: only the modifier list (incl. its LENGTH), the spelling vs value of the
+    // parameter (pi/2, 1.5707963267948966, 2*pi/4, %t) or the kind of the qubit (fixed / two variables / placeholder)
+    // differs; all ordered pairs (quick: pairs within a 32-element sub-pool), both routes
+    {
+        let mut pool = Vec::new();
+        for mods in [&[][..], &[D][..], &[D, D][..], &[C][..], &[D, C][..], &[C, D][..]] {
+            for p in [1usize, 2, 14, 3] {
+                for q in [Q::F(0), Q::V("q"), Q::V("r"), Q::P(0)] {
+                    pool.push(cal("A", mods, &[p], &[q]));
+                }
+            }
+        }
+        let mut queries = Vec::new();
+        for mods in [&[][..], &[D][..], &[D, D][..], &[D, C][..]] {
+            for p in [1usize, 2, 14, 0] {
+                queries.push(gate("A", mods, &[p], &[Q::F(0)]));
+            }
+        }
+        queries.push(gate("A", &[D], &[1], &[Q::P(0)]));
+        queries.push(gate("A", &[], &[14], &[Q::V("q")]));
+        let sub: Vec<CalSpec> = if quick { pool.iter().step_by(3).cloned().collect() } else { pool.clone() };
+        for (i, a) in sub.iter().enumerate() {
+            for (j, b) in sub.iter().enumerate() {
+                let hist = number_bodies(&[a.clone(), b.clone(), a.clone()]);
+                if (i + j) % 2 == 0 {
+                    gate_case(ctx, &w, &hist, &queries);
+                } else {
+                    gate_case_route(ctx, &w, &hist, &queries, Route::Program);
+                }
+            }
+        }
     }
 
     // ---- 3. seeded random: the full alphabet, longer histories with remove/extend, placeholders ---------
     let names = ["A", "B"];
-    let modsets: [&[GateModifier]; 5] = [&[], &[D], &[C], &[D, C], &[C, D]];
+    let modsets: [&[GateModifier]; 6] = [&[], &[D], &[C], &[D, C], &[C, D], &[D, D]];
     let qpool = [Q::F(0), Q::F(1), Q::F(2), Q::V("q"), Q::V("r"), Q::P(0), Q::P(1)];
     let mut rng = ctx.rng(16);
     let n_random = if quick { 6000 } else { 300_000 };
@@ -684,7 +920,7 @@ fn run(ctx: &mut Ctx) {
                     }
                 }
                 if rng.chance(1, 10) {
-                    c.mods = modsets[rng.below(5) as usize].to_vec();
+                    c.mods = modsets[rng.below(6) as usize].to_vec();
                 }
                 c
             }
@@ -720,7 +956,7 @@ fn run(ctx: &mut Ctx) {
                     })
                     .collect();
                 seen.extend(cs.iter().cloned());
-                ops.push(Op::Ext(cs));
+                ops.push(if rng.chance(1, 2) { Op::Ext(cs) } else { Op::ExtFrom(cs) });
             }
         }
         // queries: instances of the definitions seen (variables replaced by fixed qubits, variable params by
@@ -740,7 +976,7 @@ fn run(ctx: &mut Ctx) {
                 }
             }
             if rng.chance(1, 12) {
-                g.mods = modsets[rng.below(5) as usize].to_vec();
+                g.mods = modsets[rng.below(6) as usize].to_vec();
             }
             if rng.chance(1, 15) {
                 g.qubits.push(Q::F(0));
@@ -753,7 +989,8 @@ fn run(ctx: &mut Ctx) {
             }
             queries.push(g);
         }
-        gate_case(ctx, &w, &ops, &queries);
+        let route = if rng.chance(1, 3) { Route::Program } else { Route::Api };
+        gate_case_route(ctx, &w, &ops, &queries, route);
     }
     // random measurement histories
     let mnames = [None, Some("m")];
@@ -779,7 +1016,7 @@ fn run(ctx: &mut Ctx) {
             } else {
                 let cs: Vec<MCalSpec> = (0..2).map(|k| rand_mcal(&mut rng, 100 + (b * 2 + k) as u64)).collect();
                 seen.extend(cs.iter().cloned());
-                ops.push(Op::Ext(cs));
+                ops.push(if rng.chance(1, 2) { Op::Ext(cs) } else { Op::ExtFrom(cs) });
             }
         }
         let mut queries = Vec::new();
@@ -790,7 +1027,8 @@ fn run(ctx: &mut Ctx) {
                 target: if rng.chance(1, 2) { None } else { Some(("ro", rng.below(2))) },
             });
         }
-        meas_case(ctx, &w, &ops, &queries);
+        let route = if rng.chance(1, 3) { Route::Program } else { Route::Api };
+        meas_case_route(ctx, &w, &ops, &queries, route);
     }
     // ---- 4. end to end through the parser and Program::expand_calibrations ---------------------------
     let tqpool = [Q::F(0), Q::F(1), Q::V("q"), Q::V("r")];
@@ -802,7 +1040,7 @@ fn run(ctx: &mut Ctx) {
         let cals: Vec<CalSpec> = (0..n)
             .map(|b| CalSpec {
                 name: "A",
-                mods: if rng.chance(1, 8) { modsets[rng.below(5) as usize].to_vec() } else { mods.to_vec() },
+                mods: if rng.chance(1, 8) { modsets[rng.below(6) as usize].to_vec() } else { mods.to_vec() },
                 params: (0..np).map(|_| [0usize, 1, 2, 3, 5, 9][rng.below(6) as usize]).collect(),
                 qubits: (0..nq).map(|_| tqpool[rng.below(4) as usize].clone()).collect(),
                 body: b as u64,
